@@ -21,6 +21,11 @@ let row_of (s : sexp) : dval list = match s with
 (* group id -> first observed outcome: every split of one stream must give the same result *)
 let first_of_group : (string, string) Hashtbl.t = Hashtbl.create 256
 
+let has_sub (s : Stdlib.String.t) (sub : Stdlib.String.t) : bool =
+  let n = Stdlib.String.length s and m = Stdlib.String.length sub in
+  let rec go i = i + m <= n && (Stdlib.String.sub s i m = sub || go (i + 1)) in
+  go 0
+
 let check (fields : sexp list) : verdict * string option =
   let limit = z_of (field1 "limit" fields) in
   let oids = List.map z_of (field "oids" fields) in
@@ -46,8 +51,11 @@ let check (fields : sexp list) : verdict * string option =
     | _ -> true) in
   if panicked then (OracleFail "the server panicked while reading binary COPY data", None)
   else if hang then (OracleFail "the connection did not end", None)
+  else if final = "retained-row-changed" then (OracleFail "a row the handler had read and kept changed its content while later rows were read", None)
   else if (match List.filter_map (function L [A "must"; A m] -> Some m | _ -> None) fields with "err" :: _ -> true | _ -> false) && final <> "err" then
-    (OracleFail ("a stream cut inside a row, or interrupted by a message above the limit, was reported as complete: " ^ impl_s), None)
+    (OracleFail ("a stream cut inside a row, interrupted by a message above the limit or aborted with CopyFail was reported as complete: " ^ impl_s), None)
+  else if atom (field1 "ending" fields) = "over" && (final = "err" || final = "reader-error") && not (has_sub (Stdlib.String.concat "" (List.map (fun b -> Stdlib.String.make 1 (Char.chr (int_of_byte b))) (b_of (field1 "out" o)))) "C54000\000") then
+    (OracleFail ("the copy was interrupted by a message above the limit, and the error reported for it is not of class 54000 (program_limit_exceeded): " ^ impl_s), None)
   else if not expect_ok then (OracleFail ("the rows returned differ from the rows the client encoded: " ^ impl_s), None)
   else if not same_as_first then (OracleFail ("another split of the same stream into CopyData messages gives a different result: " ^ impl_s ^ "  vs  " ^ (Hashtbl.find first_of_group group)), None)
   else
